@@ -172,6 +172,7 @@ theorem san_pieces_safe (t : Tables) (o : Ops) (isHtml : Bool)
       | comment c => simp only [step] at hq; cases hq; trivial
       | pi _ => simp [step] at hq
       | decl _ => simp [step] at hq
+      | mdecl _ => simp [step] at hq
     split at hp
     · rename_i st' q heq
       simp only [List.mem_cons] at hp
@@ -181,9 +182,10 @@ theorem san_pieces_safe (t : Tables) (o : Ops) (isHtml : Bool)
     · rename_i st' heq
       exact ih st' p hp
 
-/-- processing instructions and declarations are dropped -/
+/-- processing instructions, declarations and marked sections (`<![if …]>`, `<![cdata[…]]>` …) are dropped, in every state -/
 theorem pi_decl_dropped (t : Tables) (o : Ops) (isHtml : Bool) (st : St) (x : Str) :
-    (step t o isHtml st (.pi x)).2 = none ∧ (step t o isHtml st (.decl x)).2 = none := ⟨rfl, rfl⟩
+    (step t o isHtml st (.pi x)).2 = none ∧ (step t o isHtml st (.decl x)).2 = none ∧
+    (step t o isHtml st (.mdecl x)).2 = none := ⟨rfl, rfl, rfl⟩
 
 /-- while the suppression counter is non-zero no text piece is emitted -/
 theorem text_suppressed (t : Tables) (o : Ops) (isHtml : Bool) (st : St) (x : Str)
